@@ -219,6 +219,19 @@ pub fn robloxfloat(bits: u32) -> u32 {
     (bits << 1) | (bits >> 31)
 }
 
+/// Interleaved Int32 / Float32 / Referent columns decoded per docs/binary.md (for sweeps).
+pub fn parse_i32_column(bytes: &[u8], n: usize) -> Result<Vec<i32>, String> {
+    Cur::new(bytes).int32s(n)
+}
+
+pub fn parse_f32_column(bytes: &[u8], n: usize) -> Result<Vec<u32>, String> {
+    Cur::new(bytes).floats(n)
+}
+
+pub fn parse_referent_column(bytes: &[u8], n: usize) -> Result<Vec<i32>, String> {
+    Cur::new(bytes).referents(n)
+}
+
 pub fn parse_container(bytes: &[u8]) -> Result<RawFile, String> {
     let mut c = Cur::new(bytes);
     if c.take(8).map_err(|e| format!("header: {e}"))? != MAGIC {
